@@ -212,6 +212,9 @@ pub fn finish(
     if tally.samples.is_empty() {
         coverage["samples"] = json!([{"note": "no sample recorded"}]);
     }
+    if let Some(v) = tally.counters.get("traces_validated_against_impl") {
+        coverage["traces_validated_against_impl"] = json!(v);
+    }
     let evidence = json!({
         "property_id": meta.property,
         "tier": meta.tier,
